@@ -56,8 +56,26 @@ def sgn(v):
     return (v > 0) - (v < 0)
 
 
+def radix_digits(rng, v, be):
+    """'<radix>:<hex digit bytes>' of v >= 0 with redundant high zero digits"""
+    r = rng.choice([2, 3, 7, 10, 16, 36, 100, 255, 256])
+    d = []
+    while v:
+        d.append(v % r)
+        v //= r
+    d += [0] * rng.choice([0, 0, 1, 2, 5])
+    if be:
+        d = d[::-1]
+    return "%d:%s" % (r, bytes(d).hex())
+
+
 def ctor_u(rng, v):
-    k = rng.choice(["vec", "vec", "new", "slice", "le", "be", "serde"])
+    k = rng.choice(["vec", "vec", "new", "slice", "le", "be", "serde", "radle", "radbe"])
+    if k in ("radle", "radbe"):
+        if v.bit_length() > 1200:
+            k = "vec"
+        else:
+            return "%s:%s" % (k, radix_digits(rng, v, k == "radbe"))
     if k == "vec":
         return "vec:" + pad_digits(rng, v)
     if k in ("new", "slice", "serde"):
@@ -75,7 +93,9 @@ def ctor_i(rng, v):
         r = rng.random()
         if r < 0.35:     # NoSign with a non-zero magnitude
             junk = val(rand_digits(rng, rng.choice([1, 2, 3])))
-            k = rng.choice(["parts", "new", "slice", "le", "be", "serde"])
+            k = rng.choice(["parts", "new", "slice", "le", "be", "serde", "radle", "radbe"])
+            if k in ("radle", "radbe"):
+                return "%s:0:%s" % (k, radix_digits(rng, junk, k == "radbe"))
             if k == "parts":
                 return "parts:0:" + pad_digits(rng, junk)
             if k in ("new", "slice", "serde"):
@@ -89,8 +109,13 @@ def ctor_i(rng, v):
             if k in ("new", "slice", "serde"):
                 return "%s:%s:%s" % (k, s, ",".join(["0"] * rng.choice([0, 1, 2, 3])))
             return "%s:%s:%s" % (k, s, "00" * rng.choice([0, 1, 9]))
-    k = rng.choice(["parts", "parts", "new", "slice", "le", "be", "sle", "sbe", "serde", "fromu"])
+    k = rng.choice(["parts", "parts", "new", "slice", "le", "be", "sle", "sbe", "serde", "fromu", "radle", "radbe"])
     s = SIGN[sgn(v)]
+    if k in ("radle", "radbe"):
+        if m.bit_length() > 1200:
+            k = "parts"
+        else:
+            return "%s:%s:%s" % (k, s, radix_digits(rng, m, k == "radbe"))
     if k == "fromu" and v < 0:
         k = "parts"
     if k == "parts":
@@ -559,12 +584,18 @@ def _ctor(kind, tok):
         c = {"vec": "CUVec", "new": "CUNew", "slice": "CUSlice", "serde": "CUSerde"}
         if name in c:
             return "%s %s" % (c[name], _hl(rest))
+        if name in ("radle", "radbe"):
+            r, b = rest.split(":")
+            return "%s %s (%s)" % ({"radle": "CURadixLe", "radbe": "CURadixBe"}[name], _bl(b), r)
         return "%s %s" % ({"le": "CUBytesLe", "be": "CUBytesBe"}[name], _bl(rest))
     if name in ("sle", "sbe"):
         return "%s %s" % ({"sle": "CISignedLe", "sbe": "CISignedBe"}[name], _bl(rest))
     if name == "fromu":
         return "CIFromU %s" % _hl(rest)
     s, body = rest.split(":", 1)
+    if name in ("radle", "radbe"):
+        r, b = body.split(":")
+        return "%s %s %s (%s)" % ({"radle": "CIRadixLe", "radbe": "CIRadixBe"}[name], _SG[s], _bl(b), r)
     c = {"parts": "CIParts", "new": "CINew", "slice": "CISlice", "serde": "CISerde"}
     if name in c:
         return "%s %s %s" % (c[name], _SG[s], _hl(body))
